@@ -173,4 +173,55 @@ def Mgr.evalExpr (m : Mgr) (e : Expr Var) : Option Int :=
     | some s, some x => some (if x = 1 then s + t.c else s)
     | _, _ => none) (some e.c)
 
+/-! ### variable names: the strings behind `Var`, and `newvar(name, pre)` as Python calls it
+
+  `SATManager.newvar(name, pre)` forms `vname = pre + str(name)` and keys `ttable` by that string.  `classify` reads a name
+  back into the sum type the rest of the model uses: `robdd_<n>` / `aux_<n>` with `<n>` exactly what `str()` prints for a
+  non-negative `int` (decimal digits, no leading zero except for `0` itself) are the node / auxiliary variables, every other
+  string is a user variable.  (The compiled driver parses the names on the wire with these very functions.) -/
+
+/-- `str(n)` for a non-negative `int` -/
+def natChars (n : Nat) : List Char := Nat.toDigits 10 n
+
+/-- `s[len(p):]` if `s.startswith(p)` -/
+def stripPre : List Char → List Char → Option (List Char)
+  | [], s => some s
+  | _ :: _, [] => none
+  | p :: ps, c :: cs => if p = c then stripPre ps cs else none
+
+/-- the `n` with `str(n) == cs`, if any -/
+def canonNat? : List Char → Option Nat
+  | [] => none
+  | c :: r =>
+    if (c :: r).all Char.isDigit && (r.isEmpty || c != '0') then some (Nat.ofDigitChars 10 (c :: r) 0) else none
+
+def robddPre : List Char := ['r', 'o', 'b', 'd', 'd', '_']
+def auxPre : List Char := ['a', 'u', 'x', '_']
+def defPre : List Char := ['d', 'e', 'f', '_']
+
+def classify (cs : List Char) : Var :=
+  match (stripPre robddPre cs).bind canonNat? with
+  | some n => .node n
+  | none =>
+    match (stripPre auxPre cs).bind canonNat? with
+    | some n => .aux n
+    | none => .user (String.ofList cs)
+
+/-- the Python string of a variable -/
+def Var.chars : Var → List Char
+  | .user s => s.toList
+  | .node n => robddPre ++ natChars n
+  | .aux n => auxPre ++ natChars n
+
+def varOfName (s : String) : Var := classify s.toList
+def nameOfVar (v : Var) : String := String.ofList v.chars
+
+/-- `newvar(name, pre)` with `str(name) = name` given as characters: registers `pre + str(name)`, returns `Literal(vname)` -/
+def Mgr.newvarPy (m : Mgr) (name : List Char) (pre : List Char := defPre) : Lit × Mgr :=
+  let v := classify (pre ++ name)
+  (⟨v, true⟩, m.newvar v)
+
+/-- `newvar(n, pre)` for an `int` name -/
+def Mgr.newvarInt (m : Mgr) (n : Nat) (pre : List Char := defPre) : Lit × Mgr := m.newvarPy (natChars n) pre
+
 end FV.Sat
